@@ -617,7 +617,7 @@ def judge_batch(ctx, case, res, items, prelude=""):
                     dead = True        # later enumerators of the chain depend on this one
     if failing:
         explain(B, failing)
-    if res.sample is None:
+    if res.sample is None and case.get("kind", "batch") == "batch":
         res.sample = dict(header=(prelude + emit_header(items))[:1200],
                           constants=sum(len(constants_of(i)) for i in items))
     return B
